@@ -127,9 +127,13 @@ def real_apply(op, dm):
 def scripts(w, far, tier):
     """(k, ops...) - at IO call k perform the op sequence; then read everything back at the last call."""
     alpha = device_ops_alphabet(w, far, tier)
-    for k in (0, 1):
+    for k in (-1, 0, 1):  # -1: inside attach_memory (before the first op, the device sees the loaded image)
         for op in alpha:
             yield (k, (op,))
+    writes0 = [o for o in alpha if o[0] in ('ww', 'wb')]
+    for a in writes0[::2]:
+        for b in [o for o in alpha if o[0] in ('rw', 'rb')]:
+            yield (-1, (a, b))
     # pairs: a write followed by anything (write->read visibility, write->write, write->program)
     writes = [o for o in alpha if o[0] in ('ww', 'wb')]
     second = alpha if tier == 'thorough' else [o for o in alpha if o[0] in ('rw', 'rb')] + writes[::3]
